@@ -9,6 +9,7 @@ import (
 	"go/constant"
 	"go/token"
 	"go/types"
+	"regexp"
 	"strings"
 
 	"golang.org/x/tools/go/types/typeutil"
@@ -1021,4 +1022,110 @@ func terminatesBlock(b *ast.BlockStmt) bool {
 		}
 	}
 	return false
+}
+
+func init() {
+	reg("C17", ruleConversionsOverwriteTheirTarget)
+	reg("C05", ruleConversionsOverwriteTheirTarget)
+}
+
+// ---------------------------------------------------------------------------------------------------------------
+// GR2: the emitted version conversions of cpp/binary OVERWRITE their target. The target of a conversion on the read
+// path is the caller's object, reused for every item and every batch; an emission that accumulates into it
+// (push_back / emplace_back / insert / append / += / |=) must be preceded, among the statements that run before it in
+// the same generator function, by an emission that empties it (`T.clear()`, `T = …`, `T.resize(0)`), otherwise batch k
+// carries the items of batches 1..k-1 in front of its own. GR1 is the same clause for the NDJSON from_json functions.
+// ---------------------------------------------------------------------------------------------------------------
+func ruleConversionsOverwriteTheirTarget(c *core.Ctx) {
+	const rule = "GR2"
+	c.Rule(rule, "cpp/binary: every emission of a conversion function that writes through its target parameter either assigns / resizes / indexes it, or — if it accumulates (push_back, emplace_back, insert, append, +=, |=) — follows an emission that empties the target", 8)
+	accRe := regexp.MustCompile(`^\s*%(\[1\])?s(\.push_back\(|\.emplace_back\(|\.emplace\(|\.insert\(|\.append\(|\s*\+=|\s*\|=)`)
+	writeRe := regexp.MustCompile(`^\s*%(\[1\])?s(\s*=[^=]|\[[^\]]*\]\s*=[^=]|\.resize\(|\.clear\(|\.assign\(|\.reserve\()`)
+	emptyRe := regexp.MustCompile(`^\s*%(\[1\])?s(\s*=[^=]|\.clear\(\)|\.resize\(0\))`)
+	n := 0
+	for _, d := range c.AllDecls() {
+		p := c.DeclPkg(d)
+		if p == nil || d.Body == nil || c.IsTestFile(d.Pos()) || !strings.HasSuffix(p.PkgPath, "/internal/cpp/binary") {
+			continue
+		}
+		info := p.TypesInfo
+		targets := map[types.Object]bool{}
+		for _, f := range d.Type.Params.List {
+			for _, nm := range f.Names {
+				if strings.Contains(strings.ToLower(nm.Name), "target") {
+					targets[info.Defs[nm]] = true
+				}
+			}
+		}
+		if len(targets) == 0 {
+			continue
+		}
+		tmplOn := func(ce *ast.CallExpr) (string, bool) {
+			for i, a := range ce.Args {
+				tv, ok := info.Types[a]
+				if !ok || tv.Value == nil || tv.Value.Kind() != constant.String {
+					continue
+				}
+				if i+1 < len(ce.Args) {
+					if id, ok := ast.Unparen(ce.Args[i+1]).(*ast.Ident); ok && targets[info.Uses[id]] {
+						return constant.StringVal(tv.Value), true
+					}
+				}
+				return "", false
+			}
+			return "", false
+		}
+		var stack []ast.Node
+		ast.Inspect(d.Body, func(m ast.Node) bool {
+			if m == nil {
+				stack = stack[:len(stack)-1]
+				return true
+			}
+			stack = append(stack, m)
+			ce, ok := m.(*ast.CallExpr)
+			if !ok {
+				return true
+			}
+			t, ok := tmplOn(ce)
+			if !ok || !(accRe.MatchString(t) || writeRe.MatchString(t)) {
+				return true
+			}
+			n++
+			if !accRe.MatchString(t) {
+				c.OK(rule, fmt.Sprintf("%s/%s#%d", c.FuncName(d), strings.TrimSpace(firstWords(t, 3)), n), ce.Pos(), "assigns, indexes or sizes the target")
+				return true
+			}
+			// statements that precede the emission in the enclosing statement lists (up to the function)
+			emptied := false
+			for i := len(stack) - 2; i >= 0 && !emptied; i-- {
+				var list []ast.Stmt
+				switch a := stack[i].(type) {
+				case *ast.BlockStmt:
+					list = a.List
+				case *ast.CaseClause:
+					list = a.Body
+				default:
+					continue
+				}
+				for _, s := range list {
+					if s.Pos() >= stack[i+1].Pos() {
+						break
+					}
+					if es, ok := s.(*ast.ExprStmt); ok {
+						if pc, ok := es.X.(*ast.CallExpr); ok {
+							if pt, ok := tmplOn(pc); ok && emptyRe.MatchString(pt) {
+								emptied = true
+							}
+						}
+					}
+				}
+			}
+			c.Check(emptied, rule, fmt.Sprintf("%s/%s#%d", c.FuncName(d), strings.TrimSpace(firstWords(t, 3)), n), ce.Pos(), "the target was emptied by an earlier emission",
+				"the emitted conversion accumulates into its target (`"+strings.TrimSpace(t)+"`) and nothing printed before it empties the target: on the read path the target is the caller's vector, reused for every batch and every item, so each read piles its items on top of those of the earlier reads")
+			return true
+		})
+	}
+	if n == 0 {
+		c.Undecided(rule, "anchor/target emissions", 0, "no emission through a target parameter found in cpp/binary")
+	}
 }
